@@ -73,6 +73,9 @@ def probe_class():
             def __setattr__(self, name, value):
                 if name == "err":
                     self.__dict__.setdefault("err_log", []).append(value)
+                    hook = self.__dict__.get("_verif_on_latch")
+                    if hook is not None and value is not None and self.__dict__.get("err") is None:
+                        hook()              # the moment the first error is latched
                 object.__setattr__(self, name, value)
         _PROBE.clear()
         _PROBE[base] = Probe
